@@ -171,6 +171,24 @@ func runC15(c *Ctx) {
 	if fn := c.Fn("R-AGE-ALL-PATHS", "(*HttpServer).resolveCall"); fn != nil {
 		c.ageOnReturns(fn, "callTokenData.CreatedAt")
 	}
+	// R-CACHE-PUT-AFTER-CHECKS: resolveCall warms the cache only on its fully verified success path
+	if fn := u.Func("(*HttpServer).resolveCall"); fn != nil {
+		ots := u.Calls(fn, Is("(*HttpServer).openToken"))
+		for _, put := range u.Calls(fn, Is("(*callStateCache).put")) {
+			okOpen := len(ots) == 1 && u.GuardedErrNilOf(put.Instr, ots[0].Value().(*ssa.Call))
+			okAge := false
+			for _, ac := range u.Calls(fn, Is("(*HttpServer).checkTokenAge")) {
+				if u.GuardedErrNilOf(put.Instr, ac.Value().(*ssa.Call)) {
+					okAge = true
+				}
+			}
+			okID := u.HasGuardContaining(put.Instr, ".CallID == cursor.CallID") || u.HasGuardContaining(put.Instr, "cursor.CallID == ")
+			r.Check(okOpen && okAge && okID, "R-CACHE-PUT-AFTER-CHECKS", "resolveCall|put", u.Pos(put.Instr.Pos()),
+				"cache written only after the call token opened, passed the age check and named the cursor's call",
+				"resolveCall stores into the call-state cache before all of {openToken ok, age ok, CallID match} hold (open="+boolStr(okOpen)+" age="+boolStr(okAge)+" id="+boolStr(okID)+"): a refused request changes the outcome of later ones")
+		}
+	}
+
 	// R-CACHE-PURE: stores to resolvedCall fields
 	n := 0
 	for _, f := range u.SrcFuncs() {
